@@ -523,6 +523,9 @@ def main(argv):
                 if gone:
                     notes.setdefault("unreproduced_oracle_failures", []).extend(l[:200] for l in gone[:10])
                     of = [l for l in of if l not in gone]
+            if ncases == 0:
+                # no case count at all: the harness process died or was killed; once more before the tie is called broken
+                of, ncases, oout = run_oracle(os_, seed, on, tier, tag, None)
             oracle_stats.append({"oracle": os_, "cases": ncases, "fails": len(of)})
             if ncases == 0:
                 failures.append({"kind": "tie", "stream": os_, "signature": "oracle-error " + os_, "detail": oout[-2000:]})
@@ -711,6 +714,8 @@ def search(prop, cfg, failures, seed, tier, tag, known, known_hits):
         line = "VIOLATION property=%s replay=%s" % (prop, rp)
         if not found_input:
             line += " no-failing-input-found"
+        # what no longer checks, in the log as well as in the replay file (one line, before the VIOLATION line)
+        out_lines.append("DETAIL: %s %s: %s" % (f["kind"], f["stream"], " ".join(str(sig).split())[:300]))
         out_lines.append(line)
     return out_lines
 
